@@ -12,6 +12,9 @@ import (
 	"os"
 	"sort"
 	"strings"
+	"time"
+
+	"github.com/uhn/ggql/pkg/ggql"
 
 	"verifharness/gq"
 	"verifharness/vh"
@@ -452,6 +455,218 @@ func cmdReuse(args []string) {
 	rep.Emit()
 }
 
+// lexemes splits a rendered document into runs of name characters and single other bytes.
+func lexemes(text string) []map[string]interface{} {
+	var out []map[string]interface{}
+	isName := func(c byte) bool {
+		return c == '_' || ('0' <= c && c <= '9') || ('a' <= c && c <= 'z') || ('A' <= c && c <= 'Z')
+	}
+	for i := 0; i < len(text); {
+		if isName(text[i]) {
+			j := i
+			for j < len(text) && isName(text[j]) {
+				j++
+			}
+			out = append(out, map[string]interface{}{"n": j - i, "nl": 0, "key": text[i:j]})
+			i = j
+			continue
+		}
+		nl := 0
+		if text[i] == '\n' {
+			nl = 1
+		}
+		out = append(out, map[string]interface{}{"n": 1, "nl": nl, "key": ""})
+		i++
+	}
+	return out
+}
+
+// skeleton reduces a response to what Envelope!WellFormed looks at.
+func skeleton(res map[string]interface{}) map[string]interface{} {
+	keys := []string{}
+	for k := range res {
+		keys = append(keys, k)
+	}
+	sort.Strings(keys)
+	sk := map[string]interface{}{"keys": keys}
+	switch d := res["data"].(type) {
+	case nil:
+		if _, has := res["data"]; has {
+			sk["dataKind"] = "null"
+		} else {
+			sk["dataKind"] = "absent"
+		}
+	case map[string]interface{}:
+		sk["dataKind"] = "object"
+		_ = d
+	default:
+		sk["dataKind"] = "other"
+	}
+	errs := []interface{}{}
+	switch el := res["errors"].(type) {
+	case nil:
+		if _, has := res["errors"]; has {
+			sk["errorsKind"] = "other"
+		} else {
+			sk["errorsKind"] = "absent"
+		}
+	case []interface{}:
+		sk["errorsKind"] = "list"
+		for _, e := range el {
+			em, _ := e.(map[string]interface{})
+			msg, _ := em["message"].(string)
+			rec := map[string]interface{}{"msg": len(msg), "key": ""}
+			kinds := []string{}
+			if p, ok := em["path"].([]interface{}); ok {
+				for _, pe := range p {
+					switch x := pe.(type) {
+					case string:
+						kinds = append(kinds, "str")
+						if !strings.HasPrefix(x, "fragment at ") {
+							rec["key"] = x
+						}
+					case int:
+						if x >= 0 {
+							kinds = append(kinds, "nat")
+						} else {
+							kinds = append(kinds, "neg")
+						}
+					default:
+						kinds = append(kinds, "other")
+					}
+				}
+			} else if em["path"] != nil {
+				kinds = append(kinds, "other")
+			}
+			rec["pathKinds"] = kinds
+			locs := []interface{}{}
+			if ll, ok := em["locations"].([]interface{}); ok {
+				for _, l := range ll {
+					lm, _ := l.(map[string]interface{})
+					line, _ := lm["line"].(int)
+					col, _ := lm["column"].(int)
+					locs = append(locs, map[string]interface{}{"line": line, "col": col})
+				}
+			}
+			rec["locs"] = locs
+			for k := range em {
+				if k != "message" && k != "path" && k != "locations" && k != "extensions" {
+					kinds = append(kinds, "other")
+					rec["pathKinds"] = kinds
+				}
+			}
+			errs = append(errs, rec)
+		}
+	default:
+		sk["errorsKind"] = "other"
+	}
+	sk["errors"] = errs
+	// serialisation: every indent mode must give text a JSON parser accepts and that decodes to the same structure
+	js := map[string]interface{}{}
+	var ref interface{}
+	if b, err := json.Marshal(normaliseForJSON(res)); err == nil {
+		_ = json.Unmarshal(b, &ref)
+	}
+	for name, indent := range map[string]int{"tight": -1, "line": 0, "indent2": 2} {
+		var sb strings.Builder
+		ok := ggql.WriteJSONValue(&sb, res, indent) == nil
+		var back interface{}
+		if ok {
+			ok = json.Unmarshal([]byte(sb.String()), &back) == nil && vh.JS(back) == vh.JS(ref)
+		}
+		js[name] = ok
+	}
+	sk["json"] = js
+	return sk
+}
+
+// normaliseForJSON turns the response into plain data encoding/json can marshal the way the
+// statement means it (error paths, numbers); non finite numbers make the reference unusable on purpose.
+func normaliseForJSON(x interface{}) interface{} {
+	switch v := x.(type) {
+	case map[string]interface{}:
+		out := map[string]interface{}{}
+		for k, e := range v {
+			out[k] = normaliseForJSON(e)
+		}
+		return out
+	case []interface{}:
+		out := make([]interface{}, len(v))
+		for i, e := range v {
+			out[i] = normaliseForJSON(e)
+		}
+		return out
+	case ggql.Symbol:
+		return string(v)
+	case time.Time:
+		return v.Format(time.RFC3339Nano)
+	}
+	return x
+}
+
+// cmdEnvelope (C07): run cases in every layout and record response skeletons plus the lexemes
+// of the submitted text for EnvelopeJudge.tla.
+func cmdEnvelope(args []string) {
+	fs := flag.NewFlagSet("envelope", flag.ExitOnError)
+	up := fs.String("universe", "", "universe json")
+	vp := fs.String("vectors", "", "cases json")
+	outp := fs.String("out", "", "ndjson output")
+	every := fs.Int("every", 1, "use every n-th case (offset by the seed)")
+	_ = fs.Parse(args)
+	var u gq.Universe
+	vh.ReadJSON(*up, &u)
+	var cases []gq.Case
+	vh.ReadJSON(*vp, &cases)
+	rep := vh.NewReport("exec", "envelope")
+	out, err := os.Create(*outp)
+	if err != nil {
+		vh.Die("%s", err)
+	}
+	defer out.Close()
+	enc := json.NewEncoder(out)
+	worlds := map[string]*gq.World{}
+	for _, s := range []string{"iface", "any"} {
+		w, err := gq.NewWorld(&u, gq.Strategy(s), gq.ListIfaceSlice)
+		if err != nil {
+			vh.Die("%s", err)
+		}
+		worlds[s] = w
+	}
+	for i := range cases {
+		if (i+int(vh.Seed()))%*every != 0 {
+			continue
+		}
+		c := &cases[i]
+		if c.Mix != nil || gq.HasNthFault(c) || c.Fam == "abstract" || c.Fam == "defectabs" {
+			continue
+		}
+		for li, lo := range gq.Layouts {
+			w := worlds[[]string{"iface", "any"}[(i+li)%2]]
+			text := c.Doc.Text(lo)
+			w.SetFaults(c.Faults)
+			res := w.Root.ResolveString(text, c.Op, gq.VarsToGo(c.Vars))
+			sk := skeleton(res)
+			sk["lex"] = lexemes(text)
+			sk["rejected"] = !c.Exp.HasData
+			sk["text"] = text
+			sk["layout"] = li
+			_ = enc.Encode(sk)
+			hasLoc := false
+			for _, e := range sk["errors"].([]interface{}) {
+				if len(e.(map[string]interface{})["locs"].([]interface{})) > 0 {
+					hasLoc = true
+				}
+			}
+			rep.Case(text+c.Op+vh.JS(c.Vars)+vh.JS(c.Faults), hasLoc)
+			rep.Class(fmt.Sprintf("layout%d", li))
+			if i%301 == 0 && li == 1 {
+				rep.Sample(map[string]interface{}{"request": text, "response": fmt.Sprint(res)})
+			}
+		}
+	}
+	rep.Emit()
+}
+
 func pathsOnly(errs []gq.ErrRec) []map[string]interface{} {
 	out := []map[string]interface{}{}
 	for _, e := range errs {
@@ -484,6 +699,8 @@ func main() {
 		cmdRecord(os.Args[2:])
 	case "reuse":
 		cmdReuse(os.Args[2:])
+	case "envelope":
+		cmdEnvelope(os.Args[2:])
 	default:
 		vh.Die("unknown mode %s", os.Args[1])
 	}
